@@ -80,6 +80,7 @@ func IsProbability(value float64) bool {
 }
 
 func DecodeToStruct(src, target interface{}) {
+	rejectAmbiguousKeys(src, reflect.TypeOf(target))
 	e := mapstructure.Decode(src, target)
 	if e != nil {
 		panic(e)
